@@ -523,6 +523,14 @@ func c01(c *core.Ctx) {
 		c01Framing(c)
 		c.EndRule()
 	}
+
+	// ---------------------------------------------------------------- R8, R9 (shared)
+	// nothing is lost on the way: the in-process header accessor takes at most one frame and never parks over it
+	// (C20/R6), and the HTTP reply reader cannot end "successfully" without the trailer (C02/R1: a lost read error
+	// makes a prefix of the messages look like the whole stream)
+	c.Borrow("C20", map[string]string{"R6": "R8"}, c20)
+	c.Borrow("C02", map[string]string{"R1": "R9"}, c02)
+
 }
 
 // c01Sends: R2.
